@@ -50,6 +50,14 @@ def cases(tier, seed):
             k = int(rng.integers(1, 12))
             case["gp_fault"] = list(range(k, k + int(rng.choice([1, 2, 3]))))
         out.append(case)
+    # long noisy runs with a SMALL buffer_ntrain: the size floor n_train_max - buffer_ntrain (190 for noisy targets, where
+    # n_train_max is raised to 200) only binds once that many points are logged
+    for j in range(4 if tier == "quick" else 24):
+        rng = gen.rng_for(seed, "C15", 700000 + j)
+        spec = gen.make_spec(rng, D=2, geom=str(rng.choice(["lin", "tight"])), x0mode="in", land=str(rng.choice(["rosen", "needle", "stair"])), where="in",
+                             mode=str(rng.choice(["declared", "he", "auto"])), options={"buffer_ntrain": int(rng.choice([10, 30, 50]))}, max_fun_evals=int(rng.choice([230, 260])),
+                             sigma=float(rng.choice([0.3, 1.0])))
+        out.append({"spec": spec})
     # (the selection metric only matters with >= 2 coordinates of different fitted length scale; several refits needed)
     out += C.option_variation_slice("C15", tier, seed, gen_kw=dict(Dchoices=(2, 3), lands=("quad", "rosen", "bowl4"), budgets=(90, 120)))
     return out
